@@ -7,7 +7,7 @@ Alphabet : 20 import statement forms (import a / a.b / a.b.c, aliased, several m
            relative imports of level 1 and 2 with and without a module part).
 Histories: every sequence of <= 2 (quick) / <= 3 (thorough) statements (import state is a state
            machine: sys.modules) x placement {module, function, class, function whose inner function and inner class
-           body read the names, inner function with `nonlocal`, function with `global`, module level after while and for/break loops} x caller identity
+           body read the names, inner function with `nonlocal`, function with `global`, module level after while and for/break loops, nested function with `global` under a function importing the same names} x caller identity
            {top-level script, module inside vpk.sub} x 8 option combinations; vpk* is purged from
            sys.modules before every run.
 Oracle   : equal import log (which modules, order, each once), equal sys.modules delta, every bound
@@ -48,7 +48,7 @@ FORMS = [
     ("rel2-module", "from ..other import val as v2", ["v2"], True),
     ("rel1-two", "from . import sib as sb, mod as md", ["sb", "md"], True),
 ]
-PLACEMENTS = ("module", "function", "class", "closure", "nonlocal", "globaldecl", "after-loops")
+PLACEMENTS = ("module", "function", "class", "closure", "nonlocal", "globaldecl", "after-loops", "global-under-import")
 CALLERS = {"script": ("__main__", None), "package": ("vpk.sub.caller", "vpk.sub")}
 
 
@@ -87,6 +87,14 @@ def render(seq, placement):
         return stmts + "\nprint(show(%s), state())\n" % pairs
     if placement == "function":
         return "def F():\n%s\n    print(show(%s), state())\n    return %s\nR = F()\n" % (_ind(stmts), pairs, names[0])
+    if placement == "global-under-import":
+        # the outer function binds the names by an import only (to another module object); a nested function declares
+        # them global and runs the statements: its stores and reads must go to the module namespace, the outer function
+        # keeps its own bindings
+        return (
+            "def F():\n%s\n    def G():\n        global %s\n%s\n        return show(%s)\n    r = G()\n    print(r, show(%s), state())\nF()\nprint(show(%s))\n"
+            % (_ind("\n".join("import sys as %s" % n for n in names)), ", ".join(names), _ind(_ind(stmts)), pairs, pairs, pairs)
+        )
     if placement == "after-loops":
         # the program also uses the features that make the output start with its helper bootstrap (itertools for while,
         # the iterator preset for for/break), next to the importlib helper the import itself needs
